@@ -2,7 +2,7 @@
    of index tuples: element (a_0, .., a_{N-1}) of the N-qubit Pauli basis is sigma_{a_0} x .. x
    sigma_{a_{N-1}} and has linear index ravel [4;..;4] (a_0, .., a_{N-1}). *)
 From Coq Require Import ZArith List Arith Lia Bool Permutation.
-From FF Require Import Model.Tensor Model.PauliIdx Proofs.TensorIdx.
+From FF Require Import Model.Tensor Model.PauliIdx Spec.Kron Proofs.TensorIdx.
 Import ListNotations.
 
 (* ------------------------------------------------------------------ equivalent_pauli_basis_elements *)
